@@ -640,6 +640,7 @@ class CommandPipeline:
             ):
                 self._close_prev_procs()
             self._close_proc()
+            self._restore_signal_handlers()
             # Mark as ended even if an exception occurred (e.g. KeyboardInterrupt).
             # Without this, subsequent access to the pipeline would try to
             # re-read from already-closed pipes → ValueError.
@@ -648,6 +649,19 @@ class CommandPipeline:
         self._apply_to_history()
         self._apply_to_thread_local()
         self._raise_subproc_error()
+
+    def _restore_signal_handlers(self):
+        """Finished stages put back the signal handlers they swapped in.
+
+        Only the last stage is ever ``wait()``ed.  A threaded callable alias
+        in an earlier position is merely joined and would otherwise keep its
+        SIGINT handler installed until it is garbage collected.  Newest
+        first: each stage saved what its predecessor had installed.
+        """
+        for p in reversed(self.procs):
+            clean_up = getattr(p, "_clean_up", None)
+            if clean_up is not None and p.poll() is not None:
+                clean_up()
 
     def _save_term_state(self):
         """Save terminal attributes so we can restore them exactly later."""
